@@ -232,8 +232,16 @@ def msg_rule(txt, shaped=False):
 ROW_LABELS = {"DATA": 0, "TDH": 1, "TDT": 2, "IHW": 3, "DDW": 4, "CDW": 5}
 
 
-def _row_tokens(lit, pos_args):
-    """ordered content of one format literal: label words, captured identifiers and positional arguments"""
+def _row_tokens(lit, all_args):
+    """ordered content of one format literal: label words, captured identifiers, named and positional arguments"""
+    named = {}
+    pos_args = []
+    for a in all_args:
+        mm = re.match(r"^([A-Za-z_][A-Za-z_0-9]*)\s*=(?!=)\s*(.*)$", a, re.S)
+        if mm:
+            named[mm.group(1)] = mm.group(2).strip()
+        else:
+            pos_args.append(a)
     out = []
     k = 0
     i = 0
@@ -247,6 +255,8 @@ def _row_tokens(lit, pos_args):
             if name == "":
                 k += 1
             out.append(f"&({pos_args[idx]})" if idx < len(pos_args) else "&tok_missing()")
+        elif name in named:
+            out.append(f"&({named[name]})")
         else:
             out.append(f"&{name}")
     for w in re.findall(r"\b(DATA|TDH|TDT|IHW|DDW|CDW)\b", lit[i:]):
@@ -263,7 +273,7 @@ def row_rule(txt):
     in the literal and the positional arguments, in the order of the literal - as nested `tok_cons(&x, ..)` calls;
     `writeln!(w, ..)` becomes `emit_row(w, <list>)`. Column widths, spacing and the rest of the literal are dropped."""
     while True:
-        ms = list(re.finditer(r"\b(format_args|format|writeln)!\s*\(", txt))
+        ms = list(re.finditer(r"\b(format_args|format|writeln|write)!\s*\(", txt))
         if not ms:
             return txt
         # innermost first: the last macro start has no macro inside it
@@ -271,7 +281,7 @@ def row_rule(txt):
         e = _match_paren(txt, m.end() - 1)
         args = _split_top(txt[m.end():e - 1])
         args = [a for a in args if a != ""]
-        if m.group(1) == "writeln":
+        if m.group(1) in ("writeln", "write"):
             w, lit, rest = args[0], args[1], args[2:]
         else:
             w, lit, rest = None, args[0], args[1:]
